@@ -227,7 +227,7 @@ def suite():
             done[mid] = 'nobuild'
         else:
             try:
-                o = subprocess.run('make -j8 check 2>&1 | grep -E "^# (TOTAL|PASS|FAIL|ERROR)" | tr "\\n" " "', shell=True, cwd=wt, stdout=subprocess.PIPE, text=True, timeout=900).stdout
+                o = subprocess.run('make -j8 check 2>&1 | grep -E "^# (TOTAL|PASS|FAIL|ERROR)" | tr "\\n" " "', shell=True, cwd=wt, stdout=subprocess.PIPE, text=True, timeout=420).stdout
             except subprocess.TimeoutExpired:
                 o = 'TIMEOUT'
                 subprocess.call("pkill -f '/tmp/mutwt/tests/' || true", shell=True)
